@@ -125,16 +125,16 @@ SrvFrame(doTick, dt) ==
     /\ Log("SrvFrame", [tick |-> doTick, dt |-> dt])
 
 DeliverUpd(c) ==
-    /\ Running /\ DeliverUpdEnabled(st, c)
+    /\ Running /\ MaxCliFrames > 0 /\ DeliverUpdEnabled(st, c)
     /\ st' = DeliverUpdF(st, c) /\ UNCHANGED <<g, b>> /\ Log("DeliverUpd", [c |-> c])
 DeliverMut(c, i) ==
-    /\ Running /\ MutEnabled(st, c, i)
+    /\ Running /\ MaxCliFrames > 0 /\ MutEnabled(st, c, i)
     /\ st' = DeliverMutF(st, c, i) /\ UNCHANGED <<g, b>> /\ Log("DeliverMut", [c |-> c, pos |-> i - 1])
 DropMut(c, i) ==
-    /\ Running /\ MutEnabled(st, c, i)
+    /\ Running /\ MaxCliFrames > 0 /\ MutEnabled(st, c, i)
     /\ st' = DropMutF(st, c, i) /\ UNCHANGED <<g, b>> /\ Log("DropMut", [c |-> c, pos |-> i - 1])
 DeliverAck(c) ==
-    /\ Running /\ DeliverAckEnabled(st, c)
+    /\ Running /\ MaxCliFrames > 0 /\ DeliverAckEnabled(st, c)
     /\ st' = DeliverAckF(st, c) /\ UNCHANGED <<g, b>> /\ Log("DeliverAck", [c |-> c])
 CliFrame(c) ==
     /\ Running /\ b.cframes < MaxCliFrames
